@@ -94,6 +94,12 @@ class HttpWebServerBasePlugin(DescriptorsHandlerMixin, ABC):
         """Client has closed the connection, do any clean up task now."""
         pass
 
+    def is_response_pending(self) -> bool:
+        """Return True while the plugin still owes the client a response
+        which it will deliver out of band (e.g. relayed from an upstream),
+        i.e. when ``handle_request`` did not queue the entire response."""
+        return False
+
     def do_upgrade(self, request: HttpParser) -> bool:
         return True
 
